@@ -606,3 +606,8 @@ impl StrExt for &str {
         *self = self.trim_start();
     }
 }
+
+// Verification hook (see /verif/DESIGN.md §2.1): only seen by kani-compiler.
+#[cfg(kani)]
+#[path = "/verif/harness/incrate/lexer.rs"]
+mod verif_kani;
